@@ -109,7 +109,8 @@ def check(run, repo):
         'P0, T0, V0 and the spectroscopic helpers are interpreted abstractly (table entries kept as '
         'atoms) for EVERY key / pair / triple, and the algebraic relations of the property are '
         'decided exactly (shape: num*U[final]/U[initial]; affine temperature maps composed as '
-        'Fractions; helper inverses as rational functions) or within twice the summed literal '
+        'Fractions; helper inverses as rational functions, element by element on arrays which they must '
+        'leave unmodified; the number zero converts to zero) or within twice the summed literal '
         'roundings (derived entries and constants).')
     run.assumptions = ['literal roundings: half a unit in the last written digit; integer-valued '
                        'mantissas and powers of ten are exact',
